@@ -1426,18 +1426,154 @@ func probeTransport(h *HTTPIn) bool {
 	return true
 }
 
-// the primitive json.Unmarshal on the WHOLE body, independent of the resolver
-func parseBody(b []byte) (a *Ans, ok, panicked bool) {
+// The body as encoding/json sees it, decoded into MIRROR types (the library's Hash /
+// NodeAux text decoders are the only primitives used) - independent of
+// RevocationStatus.UnmarshalJSON / decodeMTP, which are part of the code under test.
+type wireMTP struct {
+	Existence bool                `json:"existence"`
+	Siblings  []*merkletree.Hash  `json:"siblings"`
+	NodeAux   *merkletree.NodeAux `json:"node_aux"`
+}
+
+type wireStatus struct {
+	Issuer verifiable.TreeState `json:"issuer"`
+	MTP    json.RawMessage      `json:"mtp"`
+}
+
+// Wire is the recorded wire form; Sibs[i] == nil is a null sibling.
+type Wire struct {
+	Issuer verifiable.TreeState
+	HasMTP bool
+	Ex     bool
+	Sibs   []*string
+	Aux    *Aux
+}
+
+func hashDec(h *merkletree.Hash) *string {
+	if h == nil {
+		return nil
+	}
+	return sp(h.BigInt().String())
+}
+
+func wireBody(b []byte) (w *Wire, ok bool) {
 	defer func() {
 		if r := recover(); r != nil {
-			a, ok, panicked = nil, false, true
+			w, ok = nil, false
+		}
+	}()
+	var ws wireStatus
+	if err := json.Unmarshal(b, &ws); err != nil {
+		return nil, false
+	}
+	w = &Wire{Issuer: ws.Issuer}
+	raw := strings.TrimSpace(string(ws.MTP))
+	if raw == "" || raw == "null" {
+		return w, true
+	}
+	var wm wireMTP
+	if err := json.Unmarshal(ws.MTP, &wm); err != nil {
+		return nil, false
+	}
+	w.HasMTP, w.Ex = true, wm.Existence
+	for _, s := range wm.Siblings {
+		w.Sibs = append(w.Sibs, hashDec(s))
+	}
+	if wm.NodeAux != nil {
+		w.Aux = &Aux{Key: hashDec(wm.NodeAux.Key), Value: hashDec(wm.NodeAux.Value)}
+	}
+	return w, true
+}
+
+// reference decode (what the property demands of the decoder): more than 240 siblings or
+// a null sibling is an error; flag, siblings and auxiliary node are taken as written
+func (w *Wire) decode() (*Ans, bool) {
+	a := &Ans{State: w.Issuer.State, Ctr: w.Issuer.ClaimsTreeRoot, Rtr: w.Issuer.RevocationTreeRoot,
+		Ror: w.Issuer.RootOfRoots, Sibs: []string{}}
+	if !w.HasMTP {
+		return a, true
+	}
+	if len(w.Sibs) > 240 {
+		return nil, false
+	}
+	for _, s := range w.Sibs {
+		if s == nil {
+			return nil, false
+		}
+		a.Sibs = append(a.Sibs, *s)
+	}
+	a.Ex, a.Aux = w.Ex, w.Aux
+	return a, true
+}
+
+func (w *Wire) coq() string {
+	mtp := "None"
+	if w.HasMTP {
+		var ss []string
+		for _, s := range w.Sibs {
+			if s == nil {
+				ss = append(ss, "None")
+			} else {
+				ss = append(ss, "(Some "+coqgen.Limbs(dec(*s))+")")
+			}
+		}
+		aux := "None"
+		if w.Aux != nil {
+			o := func(s *string) string {
+				if s == nil {
+					return "None"
+				}
+				return "(Some " + coqgen.Limbs(dec(*s)) + ")"
+			}
+			aux = "(Some (" + o(w.Aux.Key) + ", " + o(w.Aux.Value) + "))"
+		}
+		mtp = fmt.Sprintf("(Some (mkrwm %s [%s] %s))", coqgen.Bool(w.Ex), strings.Join(ss, ";"), aux)
+	}
+	return fmt.Sprintf("(mkrw %s %s %s %s %s)", coqHexf(w.Issuer.State), coqHexf(w.Issuer.ClaimsTreeRoot),
+		coqHexf(w.Issuer.RevocationTreeRoot), coqHexf(w.Issuer.RootOfRoots), mtp)
+}
+
+// parseBody: the wire form of the body (nil = encoding/json refuses it) and the answer the
+// property demands the decoder to produce from it
+func parseBody(b []byte) (w *Wire, a *Ans, ok bool) {
+	w, wok := wireBody(b)
+	if !wok {
+		return nil, nil, false
+	}
+	a, ok = w.decode()
+	return w, a, ok
+}
+
+// decodeImpl: json.Unmarshal of the body into a RevocationStatus (the code under test)
+func decodeImpl(b []byte) (o hobs) {
+	defer func() {
+		if r := recover(); r != nil {
+			o = hobs{panic: true, msg: fmt.Sprint(r)}
 		}
 	}()
 	var rs verifiable.RevocationStatus
 	if err := json.Unmarshal(b, &rs); err != nil {
-		return nil, false, false
+		return hobs{msg: err.Error()}
 	}
-	return fromStatus(&rs), true, false
+	return hobs{ok: true, ans: fromStatus(&rs)}
+}
+
+func (o hobs) coq() string {
+	switch {
+	case o.ok:
+		return "(HoOk " + o.ans.coq() + ")"
+	case o.panic:
+		return "HoPanic"
+	default:
+		return "HoErr"
+	}
+}
+
+func wireCoq(w *Wire) string {
+	if w == nil {
+		return "None"
+	}
+	return "(Some " + w.coq() + ")"
 }
 
 func ansEqual(a, b *Ans) bool {
@@ -1450,7 +1586,7 @@ func (g *gen) httpCase(h *HTTPIn) {
 	h.build()
 	limit := verifiable.VerifLimitReaderBytes
 	o := runHTTP(h)
-	pa, pok, ppanic := parseBody(h.Body)
+	pw, pa, pok := parseBody(h.Body)
 	delivered := len(h.Body)
 	readOK := true
 	if h.ReadFailAt >= 0 && h.ReadFailAt <= len(h.Body) {
@@ -1468,19 +1604,13 @@ func (g *gen) httpCase(h *HTTPIn) {
 	want := !noTransport && h.Code >= 200 && h.Code < 300 && readOK && delivered < limit && pok && !h.CloseErr
 	switch {
 	case o.panic:
-		if ppanic && !noTransport && h.Code >= 200 && h.Code < 300 && readOK && delivered < limit {
-			// not an answer, hence no violation of C09; it is the dependency defect D12 (C12)
-			g.rep.Count("http:json-decoder-panic(D12)")
-			g.rep.Notes = append(g.rep.Notes, "IssuerResolver.Resolve panics inside json.Unmarshal (go-merkletree-sql Proof.UnmarshalJSON) on body "+h.Core+": "+o.msg)
-		} else {
-			g.rep.Fail("c09-http-panic", "IssuerResolver.Resolve panicked: "+o.msg, in)
-		}
+		g.rep.Fail("c09-http-panic", "IssuerResolver.Resolve panicked: "+o.msg, in)
 	case o.ok && !want:
 		g.rep.Fail("c09-http-accept", fmt.Sprintf("Resolve answered although code=%d size=%d limit=%d parses=%v readOK=%v", h.Code, delivered, limit, pok, readOK), in)
 	case !o.ok && want:
 		g.rep.Fail("c09-http-reject", fmt.Sprintf("Resolve failed (%s) although code=%d size=%d limit=%d parses", o.msg, h.Code, delivered, limit), in)
 	case o.ok && !ansEqual(o.ans, pa):
-		g.rep.Fail("c09-http-answer", "Resolve answered something else than the decoded body", in)
+		g.rep.Fail("c09-http-answer", "Resolve answered something else than the body says (existence flag, siblings and auxiliary node are to be taken as written)", in)
 	}
 	res := "err"
 	if o.ok {
@@ -1497,21 +1627,8 @@ func (g *gen) httpCase(h *HTTPIn) {
 	g.rep.Count(fmt.Sprintf("http:code%d:size-%s-limit:%s", h.Code, rel, res))
 	canon, _ := json.Marshal(h)
 	g.rep.Distinct(string(canon))
-	parsed := "None"
-	if pok {
-		parsed = "(Some " + pa.coq() + ")"
-	}
-	obs := "HoErr"
-	if o.ok {
-		obs = "(HoOk " + o.ans.coq() + ")"
-	} else if o.panic {
-		obs = "HoPanic"
-	}
-	if ppanic {
-		// json.Unmarshal itself panics on this body: outside the model (which takes the
-		// decoder as a total oracle); reported above, not written as a case
-		return
-	}
+	parsed := wireCoq(pw)
+	obs := o.coq()
 	coq := fmt.Sprintf("%s %s %s %s %s %s %s", coqgen.Bool(!noTransport), coqgen.Limbs(big.NewInt(int64(h.Code))),
 		coqgen.Limbs(big.NewInt(int64(delivered))), coqgen.Bool(readOK), parsed, coqgen.Bool(!h.CloseErr), obs)
 	g.addCase(in, "CHttp %d "+coq)
@@ -1552,6 +1669,22 @@ func (g *gen) httpStream() error {
 		`{"mtp":{"existence":false,"siblings":["-5"]}}`, " \n\t{} \n",
 		`{"mtp":{"existence":false,"siblings":[` + strings.Repeat(`"0",`, 240) + `"0"]}}`,
 		`{"mtp":{"existence":true,"siblings":[` + strings.Repeat(`"0",`, 299) + `"0"]}}`}
+	// decodeMTP: existence flag x auxiliary node x siblings, each as written
+	var matrix []string
+	for _, ex := range []string{`"existence":true,`, `"existence":false,`, ``} {
+		for _, aux := range []string{``, `,"node_aux":null`, `,"node_aux":{}`, `,"node_aux":{"key":"5"}`, `,"node_aux":{"value":"0"}`,
+			`,"node_aux":{"key":"5","value":"0"}`, `,"node_aux":{"key":null,"value":"7"}`} {
+			for _, sibs := range []string{`"siblings":[]`, `"siblings":["0","12"]`, `"siblings":null`, `"siblings":["1",null]`} {
+				matrix = append(matrix, `{"issuer":{"state":"`+strings.Repeat("00", 32)+`"},"mtp":{`+ex+sibs+aux+`}}`)
+			}
+		}
+	}
+	matrix = append(matrix, `{"mtp":null}`, `{"mtp":{}}`, `{"issuer":{"state":"x"}}`, `{"mtp":{"existence":true,"node_aux":{"key":"1","value":"2"}}}`,
+		`{"mtp":{"existence":false,"siblings":[`+strings.Repeat(`"0",`, 239)+`"0"]}}`,
+		`{"mtp":{"existence":true,"siblings":[`+strings.Repeat(`"3",`, 240)+`"3"]}}`)
+	for _, m := range matrix {
+		g.httpCase(&HTTPIn{Code: 200, BodyKind: "decode-matrix", Core: m, Size: -1, ReadFailAt: -1})
+	}
 	codes := []int{199, 200, 204, 299, 300, 404, 500}
 	sizes := []int{-1, limit - 1, limit, limit + 1}
 	if g.cfg.Thorough() {
@@ -1600,8 +1733,7 @@ func (g *gen) httpStream() error {
 		g.httpCase(&HTTPIn{Code: code, BodyKind: "malformed", Core: "{", Size: -1, ReadFailAt: -1, CloseErr: true})
 		g.httpCase(&HTTPIn{Code: code, BodyKind: "status", Core: docs[0], Size: limit, Pad: "space", ReadFailAt: -1, CloseErr: true})
 	}
-	// the library's JSON decoder of proofs dereferences a null sibling (go-merkletree-sql
-	// Proof.UnmarshalJSON): recorded separately, see c09-http-json-panic
+	// a null sibling (the library's own decoder dereferences it; decodeMTP refuses it)
 	g.httpCase(&HTTPIn{Code: 200, BodyKind: "null-sibling", Core: `{"mtp":{"existence":true,"siblings":[null]}}`, Size: -1, ReadFailAt: -1})
 	return nil
 }
@@ -1633,10 +1765,15 @@ func (g *gen) e2eCase(in *Input) {
 			msg = err.Error()
 		}
 	}()
-	pa, pok, ppanic := parseBody(h.Body)
-	if ppanic {
-		g.rep.Count("e2e:json-decoder-panic(D12):" + in.Fault)
-		return
+	pw, pa, pok := parseBody(h.Body)
+	od := decodeImpl(h.Body)
+	switch {
+	case od.panic:
+		g.rep.Fail("c09-decode-panic", "json.Unmarshal into RevocationStatus panicked: "+od.msg, in)
+	case od.ok != pok:
+		g.rep.Fail("c09-decode-mismatch", fmt.Sprintf("json.Unmarshal into RevocationStatus ok=%v, the body demands ok=%v (%s)", od.ok, pok, od.msg), in)
+	case od.ok && !ansEqual(od.ans, pa):
+		g.rep.Fail("c09-decode-mismatch", "the decoded RevocationStatus is not what the body says (existence flag, siblings and auxiliary node are to be taken as written)", in)
 	}
 	t := newTable()
 	exp := clsErr
@@ -1661,12 +1798,8 @@ func (g *gen) e2eCase(in *Input) {
 	g.rep.Count(fmt.Sprintf("e2e:%s:%s", faultFamily(in.Fault), clsName(cls)))
 	canon, _ := json.Marshal([]any{"e2e", in.Tree, in.Nonce, in.Fault, h.Code, h.Size})
 	g.rep.Distinct(string(canon))
-	parsed := "None"
-	if pok {
-		parsed = "(Some " + pa.coq() + ")"
-	}
-	coq := fmt.Sprintf("%s %s %s %s %s %s %d", t.coq(), g.str(in.Type), coqgen.Limbs(new(big.Int).SetUint64(in.Nonce)),
-		coqgen.Limbs(big.NewInt(int64(h.Code))), coqgen.Limbs(big.NewInt(int64(len(h.Body)))), parsed, cls)
+	coq := fmt.Sprintf("%s %s %s %s %s %s %s %d", t.coq(), g.str(in.Type), coqgen.Limbs(new(big.Int).SetUint64(in.Nonce)),
+		coqgen.Limbs(big.NewInt(int64(h.Code))), coqgen.Limbs(big.NewInt(int64(len(h.Body)))), wireCoq(pw), od.coq(), cls)
 	g.addCase(in, "CE2E %d "+coq)
 }
 
@@ -1683,6 +1816,18 @@ func (g *gen) e2eStream() error {
 		if len(ti.lst) > 0 {
 			m := ti.lst[g.rng.Intn(len(ti.lst))]
 			qs = append(qs, m, m^(1<<uint(3+g.rng.Intn(30))))
+			// a near miss whose path ends in another revoked nonce's leaf (honest proof with node_aux)
+			for try := 0; try < 64; try++ {
+				x := ti.lst[g.rng.Intn(len(ti.lst))] ^ (uint64(1) << uint(40+g.rng.Intn(24)))
+				if ti.set[x] {
+					continue
+				}
+				if p, _, err := ti.mt.GenerateProof(context.Background(), new(big.Int).SetUint64(x), nil); err == nil && p.NodeAux != nil {
+					qs = append(qs, x)
+					g.rep.Count("e2e:query-with-node-aux")
+					break
+				}
+			}
 		}
 		qs = append(qs, g.rng.Uint64())
 		for _, nonce := range qs {
